@@ -248,7 +248,13 @@ def annotate_fn(R, fn_lines, ann, name):
                     raise LostAnchor(f"{name}: anchor {ins['at']!r} is nested and its enclosing block could not be found")
                 R.counts["X7.anchor_moved_out_of_block"] = R.counts.get("X7.anchor_moved_out_of_block", 0) + 1
                 i = j
-        inserts.append((i, ins["pos"], ins["text"]))
+        txt = ins["text"]
+        if "$RECV" in txt:
+            rm = re.match(r"\s*(\w+)\.", body[i])
+            if not rm:
+                raise LostAnchor(f"{name}: anchor {ins['at']!r} has no receiver identifier")
+            txt = txt.replace("$RECV", rm.group(1))
+        inserts.append((i, ins["pos"], txt))
     R.counts[f"X7.ghost_inserts[{name}]"] = len(inserts)
     before, after, after2 = {}, {}, {}
     for i, pos, text in inserts:
@@ -269,12 +275,102 @@ def annotate_fn(R, fn_lines, ann, name):
     return "\n".join(out_head + out + [close])
 
 
-# ------------------------------------------------------------------ the two files
+# ------------------------------------------------------------------ X10: RefCell guards made explicit
+GUARD_LET = re.compile(r"^(\s*)let mut (\w+) = (\w+)\.inner\(\)\.links\(\)\.borrow_mut\(\);\s*$")
+
+
+def raii_guards(R, body, name):
+    """X10.  `let mut G = H.inner().links().borrow_mut();` becomes `let mut G_gN = heap.borrow_mut(&H.ptr);`
+    (the table is taken out of the heap model; taking it while it is out is the RefCell's "already borrowed"
+    panic and is a precondition violation), later uses of G in the same scope are renamed to G_gN,
+    `drop(G);` becomes `heap.release(&H.ptr, G_gN);`, and the releases that Rust performs implicitly — at a
+    `return;` and at the closing brace of the block that declared the guard, youngest first — are written
+    out.  Only straight-line bodies with `if` blocks are supported; anything else is a lost anchor."""
+    out, live, names, n = [], [], {}, 0     # live: [dict(g, owner, depth)], names: var -> current guard name
+    depth = 0
+    returned_at = None
+    for line in body:
+        code = _strip_strings(line)
+        if re.search(r"\b(while|for|loop|match)\b", code) or "borrow()" in code:
+            raise LostAnchor(f"{name}: X10 supports straight-line bodies only: {line.strip()!r}")
+        ind = re.match(r"\s*", line).group(0)
+        if code.strip().startswith("}"):
+            # implicit drops at the end of the block, youngest first (skipped when the block ended in `return;`)
+            closing = [g for g in live if g["depth"] == depth]
+            if returned_at != depth:
+                for g in reversed(closing):
+                    out.append(f"{ind}    heap.release(&{g['owner']}.ptr, {g['g']});")
+                    R.counts["X10.scope_end_release"] = R.counts.get("X10.scope_end_release", 0) + 1
+            for g in closing:
+                live.remove(g)
+                if names.get(g["var"]) == g["g"]:
+                    del names[g["var"]]
+            if returned_at == depth:
+                returned_at = None
+            depth -= 1
+            out.append(line)
+            depth += code.count("{") - (code.count("}") - 1)
+            continue
+        m = GUARD_LET.match(code.rstrip()) if code.strip() else None
+        if m:
+            n += 1
+            g = f"{m.group(2)}_g{n}"
+            live.append({"g": g, "owner": m.group(3), "depth": depth, "var": m.group(2)})
+            names[m.group(2)] = g
+            out.append(f"{m.group(1)}let mut {g} = heap.borrow_mut(&{m.group(3)}.ptr);")
+            R.counts["X10.borrow_mut"] = R.counts.get("X10.borrow_mut", 0) + 1
+            continue
+        if "borrow_mut" in code:
+            raise LostAnchor(f"{name}: X10 does not recognise this borrow: {line.strip()!r}")
+        for var, g in names.items():
+            line = re.sub(r"\b" + re.escape(var) + r"\b", g, line)
+            code = re.sub(r"\b" + re.escape(var) + r"\b", g, code)
+        dm = re.match(r"^(\s*)drop\((\w+)\);\s*$", code.rstrip())
+        if dm and any(g["g"] == dm.group(2) for g in live):
+            g = [g for g in live if g["g"] == dm.group(2)][0]
+            out.append(f"{dm.group(1)}heap.release(&{g['owner']}.ptr, {g['g']});")
+            live.remove(g)
+            if names.get(g["var"]) == g["g"]:
+                del names[g["var"]]
+            R.counts["X10.explicit_drop"] = R.counts.get("X10.explicit_drop", 0) + 1
+            continue
+        if re.match(r"^\s*return;\s*$", code.rstrip()):
+            for g in reversed(live):
+                out.append(f"{ind}heap.release(&{g['owner']}.ptr, {g['g']});")
+                R.counts["X10.return_release"] = R.counts.get("X10.return_release", 0) + 1
+            returned_at = depth
+        out.append(line)
+        depth += code.count("{") - code.count("}")
+    # end of the function body: guards declared at depth 0
+    if returned_at != 0:
+        for g in reversed([g for g in live if g["depth"] == 0]):
+            out.append(f"    heap.release(&{g['owner']}.ptr, {g['g']});")
+            R.counts["X10.scope_end_release"] = R.counts.get("X10.scope_end_release", 0) + 1
+    return out
+
+
+def extract_adopt(repo, ADOPT, R):
+    lines = open(os.path.join(repo, "src", "adopt.rs")).read().split("\n")
+    parts = [ADOPT.get("__prelude", "")]
+    for fn in ("adopt_unchecked", "unadopt"):
+        fl = dedent(cut_method(lines, r"^unsafe impl<T> Adopt for Rc<T> \{", fn, f"Adopt::{fn}"))
+        text = common_rules(R, "\n".join(fl))
+        text = R.sub("X4.unsafe_fn", r"\bunsafe fn\b", "fn", text)
+        text = R.sub("X4.unsafe_block", r"unsafe \{ (.*?) \}", r"\1", text)
+        text = R.sub("X3.handle_eq", r"ptr::eq\(this, other\)", "this.hid == other.hid", text)
+        fl = text.split("\n")
+        sig, body, close = split_fn(fl)
+        body = raii_guards(R, body, fn)
+        parts.append(annotate_fn(R, sig + body + [close], ADOPT[fn], fn))
+    return "verus! {\n\n" + "\n\n".join(p for p in parts if p) + "\n\n} // verus!\n"
+
+
+# ------------------------------------------------------------------ the three files
 def load_annotations(verif):
     ns = {}
     path = os.path.join(verif, "contracts", "verus", "annotations.py")
     exec(compile(open(path).read(), path, "exec"), ns)
-    return ns["LINK"], ns["CYCLE"], ns.get("EXPECTED_COUNTS", {})
+    return ns["LINK"], ns["CYCLE"], ns.get("EXPECTED_COUNTS", {}), ns.get("ADOPT")
 
 
 def extract_link(repo, LINK, R):
@@ -327,13 +423,14 @@ def extract_cycle(repo, CYCLE, R):
 
 def build(repo, verif):
     """-> (file text, rule counts).  Raises LostAnchor."""
-    LINK, CYCLE, expected = load_annotations(verif)
+    LINK, CYCLE, expected, ADOPT = load_annotations(verif)
     R = Rules()
     link_text = extract_link(repo, LINK, R)
     cycle_text = extract_cycle(repo, CYCLE, R)
+    adopt_text = extract_adopt(repo, ADOPT, R)
     rd = lambda n: open(os.path.join(verif, "verus", n)).read()
     text = "\n".join([rd("prelude.rs"), "// ==== extracted from src/link.rs ====", link_text, rd("heap.rs"), rd("spec.rs"), rd("lemmas_trace.rs"),
-                      "// ==== extracted from src/cycle.rs ====", cycle_text, rd("lemmas.rs") if os.path.exists(os.path.join(verif, "verus", "lemmas.rs")) else "", "fn main() {}\n"])
+                      "// ==== extracted from src/cycle.rs ====", cycle_text, rd("lemmas.rs"), rd("mheap.rs"), "// ==== extracted from src/adopt.rs ====", adopt_text, "fn main() {}\n"])
     for k, v in expected.items():
         if R.counts.get(k, 0) != v:
             raise LostAnchor(f"rule {k} applied {R.counts.get(k, 0)} times, pinned tree has {v}")
